@@ -64,7 +64,7 @@ def hazard (a b : Tok) : Bool :=
 def sepOK : Items → Bool
   | [] => true
   | [_] => true
-  | (b1, t1) :: (b2, t2) :: r => (b2 || !hazard t1 t2) && sepOK ((b2, t2) :: r)
+  | (_, t1) :: (b2, t2) :: r => (b2 || !hazard t1 t2) && sepOK ((b2, t2) :: r)
 
 /-! ### the excluded region of the v1 printer -/
 
